@@ -416,3 +416,40 @@ fires('m86-close-no-rewind', ['C20', 'C11'], [(IO, "    def close(self):\n      
 fires('m87-module-cache', ['C20'], [(CORE, "def _duration_to_nb_windows(\n    duration, analysis_window, round_fn=round, epsilon=0\n):", "_SEEN = {}\n\n\ndef _duration_to_nb_windows(\n    duration, analysis_window, round_fn=round, epsilon=0\n):"),
                                     (CORE, "    if duration == 0:\n        return 0\n    return int(round_fn", "    if duration == 0:\n        return 0\n    _SEEN[duration] = analysis_window\n    return int(round_fn")])
 fires('m88-mutable-default', ['C20'], [(CORE, "    def _check_iter_others(self, others):\n", "    def _check_iter_others(self, others, seen=[]):\n")])
+
+# ------------------------------------------------------------------ C11 sources
+fires('m90-file-read-empty', ['C11'], [(IO, "        data = self._read_from_stream(size)\n        if not data:\n            return None\n        return data", "        data = self._read_from_stream(size)\n        if data is None:\n            return None\n        return data")],
+      'file sources return b"" at end of data')
+fires('m91-position-guard-ge', ['C11'], [(IO, "        if position < 0 or position > len(self.data):\n", "        if position < 0 or position >= len(self.data):\n")])
+fires('m92-cursor-by-request', ['C11'], [(IO, "        if data:\n            self._current_position_bytes += len(data)\n            return data\n        return None", "        if data:\n            self._current_position_bytes = offset\n            return data\n        return None")],
+      'cursor jumps to the requested end even when fewer bytes were available / offset None')
+fires('m93-raw-read-samples', ['C11'], [(IO, "            bytes_to_read = size * self._sample_size\n        data = self._audio_stream.read(bytes_to_read)", "            bytes_to_read = size * self._sample_width\n        data = self._audio_stream.read(bytes_to_read)")])
+fires('m94-negative-position-no-len', ['C11'], [(IO, "        if position < 0:\n            position += len(self.data)\n", "        if position < 0:\n            position += len(self.data) // self._sample_size_all_channels\n")])
+fires('m95-buffer-open-check-late', ['C11'], [(IO, """        if not self._is_open:
+            raise AudioIOError("Stream is not open")
+        if size is None or size < 0:
+            offset = None""", """        if size is None or size < 0:
+            offset = None""")])
+fires('m96-position-s-round', ['C11'], [(IO, "        self.position = int(self.sampling_rate * position_s)\n", "        self.position = int(self.sampling_rate + position_s)\n")])
+fires('m97-stdin-empty', ['C11'], [(IO, "        data = self._stream.read(bytes_to_read)\n        if data:\n            return data\n        return None", "        data = self._stream.read(bytes_to_read)\n        return data"),
+                                    (IO, "        data = self._read_from_stream(size)\n        if not data:\n            return None\n        return data", "        data = self._read_from_stream(size)\n        if data is None:\n            return None\n        return data")])
+fires('m98-check-audio-data-weak', ['C11', 'C17'], [(IO, "    if nb_samples * sample_size_bytes != len(data):\n", "    if nb_samples * sample_size_bytes > len(data):\n")])
+fires('m99-buffer-wrong-error', ['C11'], [(IO, "        if not self._is_open:\n            raise AudioIOError(\"Stream is not open\")", "        if not self._is_open:\n            raise ValueError(\"Stream is not open\")")])
+fires('m100-wave-neg-size', ['C11'], [(IO, "        if size is None or size < 0:\n            size = -1\n        return self._audio_stream.readframes(size)", "        if size is None:\n            size = -1\n        return self._audio_stream.readframes(abs(size))")])
+fires('m101-position-getter-bytes', ['C11'], [(IO, "        return self._current_position_bytes // self._sample_size_all_channels\n", "        return self._current_position_bytes // self._sample_width\n")])
+silent('t90-file-read-len', ['C11'], [(IO, "        data = self._read_from_stream(size)\n        if not data:\n            return None\n        return data", "        data = self._read_from_stream(size)\n        if data:\n            return data\n        return None")])
+silent('t91-buffer-is-open-call', ['C11'], [(IO, "        if not self._is_open:\n            raise AudioIOError(\"Stream is not open\")\n        if size is None or size < 0:", "        if not self.is_open():\n            raise AudioIOError(\"Stream is not open\")\n        if size is None or size < 0:")])
+
+# ------------------------------------------------------------------ C09 containers and aliases
+fires('m110-alias-short-wins', ['C09'], [(CORE, "        analysis_window = kwargs.get(\n            \"analysis_window\", kwargs.get(\"aw\", DEFAULT_ANALYSIS_WINDOW)\n        )", "        analysis_window = kwargs.get(\n            \"aw\", kwargs.get(\"analysis_window\", DEFAULT_ANALYSIS_WINDOW)\n        )")])
+fires('m111-region-input-width-from-channels', ['C09', 'C05'], [(CORE, "            params[\"sample_width\"] = input.sw\n", "            params[\"sample_width\"] = input.ch\n")])
+fires('m112-mr-alias-dropped', ['C09'], [(CORE, "        params[\"max_read\"] = params.get(\"max_read\", params.get(\"mr\"))\n", "        params[\"max_read\"] = params.get(\"max_read\")\n")])
+fires('m113-eth-pair-wrong', ['C09'], [(CORE, "        energy_threshold = kwargs.get(\n            \"energy_threshold\", kwargs.get(\"eth\", DEFAULT_ENERGY_THRESHOLD)\n        )", "        energy_threshold = kwargs.get(\n            \"energy_threshold\", kwargs.get(\"uc\", DEFAULT_ENERGY_THRESHOLD)\n        )")])
+fires('m114-param-pairs-order', ['C09'], [(IO, "        (\"sample_width\", \"sw\"),\n        (\"channels\", \"ch\"),\n    ):", "        (\"channels\", \"ch\"),\n        (\"sample_width\", \"sw\"),\n    ):")])
+fires('m115-wave-lazy-eager-swapped', ['C09'], [(IO, "    if large_file:\n        return WaveAudioSource(filename)\n", "    if not large_file:\n        return WaveAudioSource(filename)\n")])
+fires('m116-raw-loader-ignores-large-file', ['C09'], [(IO, "        return _load_raw(filename, srate, swidth, channels, large_file)\n", "        return _load_raw(filename, srate, swidth, channels)\n")])
+fires('m117-bytes-to-stdin', ['C09'], [(IO, "    if isinstance(input, bytes):\n        return BufferAudioSource(input, *_get_audio_parameters(kwargs))", "    if isinstance(input, bytes):\n        return BufferAudioSource(input[:], *_get_audio_parameters(kwargs)[::-1])")])
+fires('m118-uc-alias-read-direct', ['C09'], [(CORE, "        use_channel = kwargs.get(\"use_channel\", kwargs.get(\"uc\"))\n", "        use_channel = kwargs.get(\"uc\", kwargs.get(\"use_channel\"))\n")])
+fires('m119-fmt-not-normalised', ['C09'], [(CORE, "        params[\"audio_format\"] = params.get(\"audio_format\", params.get(\"fmt\"))\n", "        params[\"audio_format\"] = params.get(\"fmt\", params.get(\"audio_format\"))\n")])
+silent('t110-alias-locals', ['C09', 'C06'], [(CORE, "        use_channel = kwargs.get(\"use_channel\", kwargs.get(\"uc\"))\n        validator = AudioEnergyValidator(\n            energy_threshold, source.sw, source.ch, use_channel=use_channel\n        )",
+                                              "        uc = kwargs.get(\"use_channel\", kwargs.get(\"uc\"))\n        validator = AudioEnergyValidator(\n            energy_threshold, source.sw, source.ch, use_channel=uc\n        )")])
